@@ -140,6 +140,28 @@ def run(prop, tier="quick", replay=None, root=None, quiet=False):
                 known_hits.append((key, o, r))
             else:
                 violations.append((key, o, o.msg, r))
+    wit = []
+    if tier == "thorough":
+        from . import witness
+        try:
+            wit = witness.for_property(prop, root, info.get("digest") or "")
+        except Exception as e:      # fail closed
+            wit = [("witness-run", False, "the witness crate could not be run: %r" % (e,))]
+        if wit:
+            emit("[%s-W] compile-fail witnesses (rustc decides; nothing is executed): %d" % (prop, len(wit)))
+        for name, ok, msg in wit:
+            n_obs += 1
+            if ok:
+                n_ok += 1
+                emit("    ok   %s %s" % (name, msg))
+                samples.append({"rule": "%s-W" % prop, "instance": name, "in": "witness/src/lib.rs",
+                                "where": "witness/src/lib.rs", "verdict": "holds", "because": msg})
+            else:
+                emit("    FAIL %s %s" % (name, msg))
+                violations.append(("%s|W|witness|%s" % (prop, name), None, msg, None))
+        if wit:
+            rule_summ.append({"rule": "%s-W" % prop, "title": "compile-fail witnesses", "instances": len(wit),
+                              "discharged": sum(1 for _, ok, _ in wit if ok), "floor": len(wit), "notes": []})
     for c in canaries:
         n_obs += 1
         if c["fired"]:
